@@ -218,3 +218,32 @@ PROPS["C08"] = {
     "outside": "record evolution (field matching by name/alias, defaults from JSON), enum symbol mapping and defaults, union branch selection, array/map item promotion, logical types, idempotence of resolve: only the leaf promotion matrix is decided. Strings/bytes longer than 2 bytes (so the textual NaN/INF float forms are outside).",
     "assumptions": ["the promotion table in the harness (spec_resolve) is transcribed from the Avro 1.11 specification, section Schema Resolution"],
 }
+
+C16_FUNCS = ["serde::ser_schema::SchemaAwareSerializer (serialize_bool/i8/i16/i32/i64/f32/f64, checked_write_int, checked_write_long, write_array)", "serde::deser_schema::SchemaAwareDeserializer (deserialize_bool/i32/i64/f64, checked_read_long)", "util::zig_i64", "util::zag_i64"]
+PROPS["C16"] = {
+    "harnesses": [
+        H("c16::ser_ints", functions=C16_FUNCS, bounds="all i64 under long; all i32 / i16 / i8 under int; block-size setting None or 0..255"),
+        H("c16::ser_scalars", functions=C16_FUNCS, bounds="both booleans, all f32 and f64 bit patterns"),
+        H("c16::ser_mismatch_writes_nothing", functions=C16_FUNCS, bounds="i64 under schema boolean, all values"),
+        H("c16::de_long", functions=C16_FUNCS, bounds="all byte strings of length <= 10 under schema long"),
+        H("c16::de_scalars", functions=C16_FUNCS, bounds="all byte strings of length <= 10 under boolean / int / double"),
+    ],
+    "outside": "everything but scalars: strings, bytes, options, sequences and maps with block settings, structs (field reordering, defaults for skipped fields), enums, the schema-less to_value/from_value route. Agreement with the generic path is derived: both are decided equal to the same reference codec (serde side here, generic side in enc::* / dec::*).",
+    "assumptions": ["the byte-level agreement of the two routes is derived from their equality with one reference codec, not compared in one query"],
+}
+
+C09_FUNCS = ["schema_compatibility::Checker::inner_full_match_schemas", "types::Value::resolve_internal"]
+PROPS["C09"] = {
+    "harnesses": [
+        H("c09::from_int", functions=C09_FUNCS, bounds="writer int vs 6 reader leaf kinds, all i32"),
+        H("c09::from_long", functions=C09_FUNCS, bounds="writer long vs 6 reader leaf kinds, all i64"),
+        H("c09::from_float", functions=C09_FUNCS, bounds="writer float vs 6 reader leaf kinds, all bit patterns"),
+        H("c09::from_double", functions=C09_FUNCS, bounds="writer double vs 6 reader leaf kinds, all bit patterns"),
+        H("c09::from_bytes", functions=C09_FUNCS, bounds="writer bytes (<= 2 bytes) vs int/long/float/double/bytes"),
+        H("c09::from_string", functions=C09_FUNCS, bounds="writer string (<= 2 bytes) vs 6 reader leaf kinds"),
+        H("c09::mutual_symmetric", functions=C09_FUNCS[:1], bounds="all 15 unordered pairs of the six leaf kinds"),
+        H("c09::finding_bytes_to_string", functions=C09_FUNCS, bounds="writer bytes read as string, all payloads <= 2 bytes", expect_fail=True),
+    ],
+    "outside": "records, enums, unions, arrays, maps, named types, logical types, the pointer-keyed recursion memo (Checker::full_match_schemas hashes schema addresses; the harness calls the structural matcher inner_full_match_schemas directly): only the leaf-kind verdict table is decided.",
+    "assumptions": ["verdict obtained from Checker::inner_full_match_schemas (what SchemaCompatibility::can_read returns for non-recursive schemas)"],
+}
